@@ -12,6 +12,7 @@ INVARIANTS
   IdpRecovers
   DeliveredToDestination
   IdpAcceptsDestination
+  IdpFindsAcs
   OneStepIsFirstLocation
   MessageIntact
   SignedOctetsExact
@@ -20,6 +21,8 @@ INVARIANTS
   UnsignedWhenOff
   VerifiesUnderPublished
   SignedWhateverIdpWants
+  SignedOnEveryPath
+  MiddlewareEmitsChosen
   PinnedDiffersOnlyWhereNamed
   Emit
 PROPERTIES
